@@ -210,9 +210,15 @@ pub fn run(tier: &str, seed: u64, replay: Option<String>) -> i32 {
         let edits = modelfault::enumerate_single(&v);
         space += edits.len();
         let is_min = b.starts_with("min:");
+        // the quick tier also takes every edit of the probe model itself: a computation that
+        // shares ids, climate and geometry with the healthy model that follows it
+        let all_in_quick = is_min || b == PROBE;
         for e in &edits {
-            let s = json!({"base": b, "edits": [e], "what": "single"});
-            if thorough || is_min {
+            let mut s = json!({"base": b, "edits": [e], "what": "single"});
+            if !is_min {
+                s["probe_base"] = json!(b);
+            }
+            if thorough || all_in_quick {
                 steps.push(s);
             } else {
                 cells
@@ -245,7 +251,11 @@ pub fn run(tier: &str, seed: u64, replay: Option<String>) -> i32 {
         let mut es: Vec<MEdit> = (0..k).map(|_| rng.pick(edits).clone()).collect();
         // apply deeper / later pointers first so earlier deletions do not move them
         es.sort_by(|a, b| format!("{:?}", b).cmp(&format!("{:?}", a)));
-        steps.push(json!({"base": b, "edits": es, "what": "multi", "require_all": false}));
+        let mut st = json!({"base": b, "edits": es, "what": "multi", "require_all": false});
+        if !b.starts_with("min:") {
+            st["probe_base"] = json!(b);
+        }
+        steps.push(st);
     }
     // ---- editor sessions from the empty model: every prefix is a recompute
     let n_sessions = if thorough { 3000 } else { 150 };
@@ -262,7 +272,7 @@ pub fn run(tier: &str, seed: u64, replay: Option<String>) -> i32 {
         }
     }
     eprintln!(
-        "[C14] {} bases; single-edit space {} ({} cells); running {} single, {} multi, {} session steps; healthy probe {} after every step",
+        "[C14] {} bases; single-edit space {} ({} cells); running {} single, {} multi, {} session steps; healthy probe (the intact base model, else {}) after every step",
         bases.len(), space, n_cells, n_single, n_multi, n_session_steps, PROBE
     );
     let out = modelrun::run_steps(&steps, &cfg(), &scratch.dir);
@@ -313,6 +323,33 @@ pub fn run(tier: &str, seed: u64, replay: Option<String>) -> i32 {
         thr_cases.push((
             json!({"t":"proc","threads":threads,"sched":sched,"sched_seed":rng.next_u64() % 1_000_000_007,"fuel": 500_000_000i64}),
             super::c05::env_of(rng.next_u64() % 1000, None),
+        ));
+    }
+    // ordered pairs in a FRESH process: the faulted model is the first thing the process ever
+    // computes, then the intact model; the intact result must equal its isolated reference
+    // (catches state where the first computation wins, which a reference computed earlier in
+    // the same process would mask)
+    let n_first = if thorough { 12_000 } else { 1_500 };
+    let file_pool: Vec<&Value> = faulted_pool.iter().copied().filter(|s| s["base"].as_str().map(|b| !b.starts_with("min:") && b != "empty").unwrap_or(false)).collect();
+    // every non-schedule single edit of the probe model itself, then a seeded sample of the rest
+    let own: Vec<&Value> = file_pool
+        .iter()
+        .copied()
+        .filter(|s| s["base"] == PROBE && s["what"] == "single" && !serde_json::to_string(&s["edits"]).unwrap_or_default().contains("/schedules/"))
+        .collect();
+    for k in 0..(n_first + own.len()) {
+        if file_pool.is_empty() {
+            break;
+        }
+        let st = if k < own.len() { own[k] } else { *rng.pick(&file_pool) };
+        let healthy_op = json!({"op":"indicators","base":st["base"],"edits":[]});
+        if !refs.contains_key(&super::c05::op_key(&healthy_op)) {
+            continue;
+        }
+        thr_cases.push((
+            json!({"t":"proc","threads":[[{"op":"recompute","base":st["base"],"edits":st["edits"],"require_all":false}, healthy_op]],
+                "sched":{"strategy":"rr","q":1000000},"sched_seed":0,"fuel": 500_000_000i64}),
+            super::c05::env_of(0, None),
         ));
     }
     let thr_out = super::c05::run_proc_jobs_t(&thr_cases, &scratch.dir, 45_000);
